@@ -31,6 +31,7 @@ func (lam *Lambda) Call(s *Scope, args List, depth int) (result Object) {
 	if lam.Closure != nil {
 		ss.parents = append(ss.parents, lam.Closure)
 		ss.Macro = lam.Closure.Macro
+		ss.TagBody = ss.TagBody || lam.Closure.TagBody
 	} else if s.Keep { // flavors instance uses this
 		ss.parents = append(ss.parents, s)
 	}
